@@ -171,31 +171,62 @@ Proof.
     exists fs'. split; [exact E|]. split; [|auto]. intros q Hq'. apply Hq. left; exact Hq'.
 Qed.
 
+(* ---- metadata restore and hard links below a real directory ---- *)
+Lemma restore_meta_spec fs D n m : physdir fs D ->
+  local (D ++ [n]) fs (restore_meta fs (D ++ [n]) m) /\ modeonly fs (restore_meta fs (D ++ [n]) m).
+Proof.
+  intros H. unfold restore_meta. rewrite (lstat_snoc _ _ _ H).
+  destruct (look fs (D ++ [n])) as [e|] eqn:El.
+  - destruct e as [m0 | c0 m0 | tg | m0];
+      try (apply chmod_spec; [exact H | intros tg' Ht; rewrite El in Ht; discriminate]).
+    split; [apply local_refl | intros q; left; reflexivity].
+  - apply chmod_spec; [exact H | intros tg' Ht; rewrite El in Ht; discriminate].
+Qed.
+
+Lemma link_local fs old D n fs' s : physdir fs D -> link fs old (D ++ [n]) = (fs', s) -> local (D ++ [n]) fs fs'.
+Proof.
+  intros H. unfold link. destruct (lstat fs old) as [q e| |].
+  - destruct (is_dir e); [intros R; inversion R; apply local_refl | intros R; eapply create_local; eauto].
+  - intros R; inversion R; apply local_refl.
+  - intros R; inversion R; apply local_refl.
+Qed.
+
 (* ---- pass 1 ---- *)
 Lemma pass1_step o s e : physdir (p_fs s) T ->
   let s' := pass1_ev o T s e in
   physdir (p_fs s') T /\ mono (p_fs s) (p_fs s') /\ local T (p_fs s) (p_fs s') /\
   (forall d, In d (ensured_of [e]) -> physdir (p_fs s') (T ++ d)) /\
-  ((p_files s' = p_files s /\ p_tracked s' = p_tracked s) \/
-   exists d n c m loc, e = EvVisit d (NFile n c m) loc /\
-     p_files s' = p_files s ++ [(T ++ d ++ [n], c)] /\ p_tracked s' = loc :: p_tracked s).
+  (p_files s' = p_files s \/
+   exists d nd loc c, e = EvVisit d nd loc /\ p_files s' = p_files s ++ [(T ++ d ++ [node_name nd], c)]) /\
+  (p_idx s' = p_idx s \/
+   exists d nd loc ino, e = EvVisit d nd loc /\ p_idx s' = (ino, loc) :: p_idx s).
 Proof.
   intros H. destruct e as [d | d nd loc | d mo loc keep]; cbn [pass1_ev].
-  - destruct (ensure_below_spec (p_fs s) d H) as [fs' [E [Hl [Hm Hp]]]]. rewrite E. cbn [fst p_fs p_files p_tracked].
+  - destruct (ensure_below_spec (p_fs s) d H) as [fs' [E [Hl [Hm Hp]]]]. rewrite E. cbn [fst p_fs p_files p_tracked p_idx].
     split; [eapply physdir_mono; eauto|]. split; [exact Hm|]. split; [exact Hl|].
-    split; [|left; auto]. cbn. intros d' [<- | []]. exact Hp.
+    split; [|split; left; reflexivity]. cbn. intros d' [<- | []]. exact Hp.
   - destruct (ensure_below_spec (p_fs s) d H) as [fs' [E [Hl [Hm Hp]]]]. rewrite E.
     assert (Hbase : physdir fs' T) by (eapply physdir_mono; eauto).
     assert (Hens : forall d', In d' (ensured_of [EvVisit d nd loc]) -> physdir fs' (T ++ d')).
     { cbn. intros d' [<- | []]. exact Hp. }
-    destruct nd as [n c m | n m sub | n tg | n m | n]; cbn [p_fs p_files p_tracked];
-      try (split; [exact Hbase|]; split; [exact Hm|]; split; [exact Hl|]; split; [exact Hens | left; auto]).
-    destruct (should_overwrite o fs' (T ++ d ++ [n])) as [[|]|]; cbn [p_fs p_files p_tracked];
-      (split; [exact Hbase|]; split; [exact Hm|]; split; [exact Hl|]; split; [exact Hens|]).
-    + right. exists d, n, c, m, loc. auto.
-    + left; auto.
-    + left; auto.
-  - split; [exact H|]. split; [apply mono_refl|]. split; [apply local_refl|]. split; [intros d' []|left; auto].
+    assert (Hreg : forall idx n c, node_name nd = n ->
+              let s' := reg_file o T fs' s idx d n c loc in
+              p_fs s' = fs' /\ p_idx s' = idx /\
+              (p_files s' = p_files s \/ p_files s' = p_files s ++ [(T ++ d ++ [node_name nd], c)])).
+    { intros idx n c <-. unfold reg_file. destruct (should_overwrite o fs' (T ++ d ++ [node_name nd])) as [[|]|];
+        cbn [p_fs p_idx p_files]; auto. }
+    destruct nd as [n c m | n m sub | n tg | n m | n | n c m ino]; cbn [p_fs p_files p_tracked p_idx];
+      try (split; [exact Hbase|]; split; [exact Hm|]; split; [exact Hl|]; split; [exact Hens|]; split; left; reflexivity).
+    + destruct (Hreg (p_idx s) n c eq_refl) as [E1 [E2 E3]]. rewrite E1, E2.
+      split; [exact Hbase|]. split; [exact Hm|]. split; [exact Hl|]. split; [exact Hens|]. split; [|left; reflexivity].
+      destruct E3 as [E3 | E3]; [left; exact E3 | right; exists d, (NFile n c m), loc, c; auto].
+    + destruct (idx_find ino (p_idx s)); cbn [p_fs p_files p_tracked p_idx].
+      * split; [exact Hbase|]. split; [exact Hm|]. split; [exact Hl|]. split; [exact Hens|]. split; left; reflexivity.
+      * destruct (Hreg ((ino, loc) :: p_idx s) n c eq_refl) as [E1 [E2 E3]]. rewrite E1, E2.
+        split; [exact Hbase|]. split; [exact Hm|]. split; [exact Hl|]. split; [exact Hens|]. split.
+        -- destruct E3 as [E3 | E3]; [left; exact E3 | right; exists d, (NHard n c m ino), loc, c; auto].
+        -- right. exists d, (NHard n c m ino), loc, ino. auto.
+  - split; [exact H|]. split; [apply mono_refl|]. split; [apply local_refl|]. split; [intros d' []|]. split; left; reflexivity.
 Qed.
 
 Lemma ensured_of_app a b : ensured_of (a ++ b) = ensured_of a ++ ensured_of b.
@@ -206,36 +237,31 @@ Lemma pass1_fold o evs : forall s, physdir (p_fs s) T ->
   physdir (p_fs s') T /\ mono (p_fs s) (p_fs s') /\ local T (p_fs s) (p_fs s') /\
   (forall d, In d (ensured_of evs) -> physdir (p_fs s') (T ++ d)) /\
   (forall pc, In pc (p_files s') -> In pc (p_files s) \/
-      exists d n c m loc, In (EvVisit d (NFile n c m) loc) evs /\ pc = (T ++ d ++ [n], c)) /\
-  (forall l, In l (p_tracked s') -> In l (p_tracked s) \/
-      exists d n c m, In (EvVisit d (NFile n c m) l) evs /\ In (T ++ d ++ [n], c) (p_files s')) /\
-  (forall pc, In pc (p_files s) -> In pc (p_files s')).
+      exists d nd loc, In (EvVisit d nd loc) evs /\ fst pc = T ++ d ++ [node_name nd]) /\
+  (forall iv, In iv (p_idx s') -> In iv (p_idx s) \/ exists d nd, In (EvVisit d nd (snd iv)) evs).
 Proof.
   induction evs as [|e evs IH]; intros s H; cbn [fold_left].
   - split; [exact H|]. split; [apply mono_refl|]. split; [apply local_refl|].
-    split; [intros d []|]. split; [auto|]. split; auto.
-  - destruct (pass1_step o s e H) as [H1 [Hm1 [Hl1 [He1 Hf1]]]].
-    destruct (IH (pass1_ev o T s e) H1) as [H2 [Hm2 [Hl2 [He2 [Hf2 [Ht2 Hk2]]]]]].
+    split; [intros d []|]. split; auto.
+  - destruct (pass1_step o s e H) as [H1 [Hm1 [Hl1 [He1 [Hf1 Hi1]]]]].
+    destruct (IH (pass1_ev o T s e) H1) as [H2 [Hm2 [Hl2 [He2 [Hf2 Hi2]]]]].
     split; [exact H2|]. split; [eapply mono_trans; eauto|]. split; [eapply local_trans; eauto|].
-    split; [|split; [|split]].
+    split; [|split].
     + intros d Hd. change (e :: evs) with ([e] ++ evs) in Hd. rewrite ensured_of_app in Hd.
       apply in_app_or in Hd as [Hd | Hd]; [|apply He2; exact Hd].
       eapply physdir_mono; [exact Hm2 | apply He1; exact Hd].
-    + intros pc Hpc. destruct (Hf2 pc Hpc) as [Hin | [d [n [c [m [loc [Hin ->]]]]]]].
-      * destruct Hf1 as [[Ef _] | [d [n [c [m [loc [-> [Ef _]]]]]]]].
+    + intros pc Hpc. destruct (Hf2 pc Hpc) as [Hin | [d [nd [loc [Hin Hp]]]]].
+      * destruct Hf1 as [Ef | [d [nd [loc [c [-> Ef]]]]]].
         -- left. rewrite <- Ef. exact Hin.
         -- rewrite Ef in Hin. apply in_app_or in Hin as [Hin | [<- | []]]; [left; exact Hin|].
-           right. exists d, n, c, m, loc. split; [left; reflexivity | reflexivity].
-      * right. exists d, n, c, m, loc. split; [right; exact Hin | reflexivity].
-    + intros l Hl. destruct (Ht2 l Hl) as [Hin | [d [n [c [m [Hin Hpc]]]]]].
-      * destruct Hf1 as [[_ Et] | [d [n [c [m [loc [-> [Ef Et]]]]]]]].
-        -- left. rewrite <- Et. exact Hin.
-        -- rewrite Et in Hin. destruct Hin as [<- | Hin]; [|left; exact Hin].
-           right. exists d, n, c, m. split; [left; reflexivity|]. apply Hk2. rewrite Ef.
-           apply in_or_app; right; left; reflexivity.
-      * right. exists d, n, c, m. split; [right; exact Hin | exact Hpc].
-    + intros pc Hpc. apply Hk2. destruct Hf1 as [[Ef _] | [d [n [c [m [loc [_ [Ef _]]]]]]]]; rewrite Ef; [exact Hpc|].
-      apply in_or_app; left; exact Hpc.
+           right. exists d, nd, loc. split; [left; reflexivity | reflexivity].
+      * right. exists d, nd, loc. split; [right; exact Hin | exact Hp].
+    + intros iv Hiv. destruct (Hi2 iv Hiv) as [Hin | [d [nd Hin]]].
+      * destruct Hi1 as [Ei | [d [nd [loc [ino [-> Ei]]]]]].
+        -- left. rewrite <- Ei. exact Hin.
+        -- rewrite Ei in Hin. destruct Hin as [<- | Hin]; [|left; exact Hin].
+           right. exists d, nd. left; reflexivity.
+      * right. exists d, nd. right; exact Hin.
 Qed.
 
 (* ---- phases 2 and 3 over a fixed set of used directories ---- *)
@@ -247,16 +273,6 @@ Definition G (fs : fsT) : Prop := forall X, In X used -> physdir fs (T ++ X).
 Definition leafok (p : path) : Prop :=
   exists d n, p = T ++ d ++ [n] /\ In d used /\ (forall X, In X used -> prefixb (d ++ [n]) X = false).
 
-Lemma leaf_compat p p' : leafok p -> leafok p' -> p' = p \/ prefixb p' p = false.
-Proof.
-  intros [d [n [-> [Hd _]]]] [d' [n' [-> [_ Hx']]]].
-  destruct (prefixb (T ++ d' ++ [n']) (T ++ d ++ [n])) eqn:E; [|right; reflexivity].
-  left. rewrite prefixb_common in E. pose proof E as E'.
-  apply prefix_snoc in E' as [E' | E'].
-  - rewrite E'. reflexivity.
-  - rewrite (Hx' d Hd) in E'. discriminate.
-Qed.
-
 (* a change confined to a leaf position keeps the invariant *)
 Lemma G_leafstep fs fs' d n : In d used -> (forall X, In X used -> prefixb (d ++ [n]) X = false) ->
   local (T ++ d ++ [n]) fs fs' -> G fs -> G fs'.
@@ -265,44 +281,40 @@ Proof.
   rewrite prefixb_common. apply Hx; exact HX.
 Qed.
 
-Lemma restore_files_spec ar files : forall fs done,
-  (forall pc, In pc files -> leafok (fst pc)) ->
-  (forall p, In p done -> leafok p /\ notlink fs p) ->
-  G fs ->
-  let fs' := restore_files ar fs files in
-  local T fs fs' /\ G fs' /\ (forall p, In p done -> notlink fs' p) /\
-  (forall pc, In pc files -> notlink fs' (fst pc)).
+Lemma G_modeonly fs fs' : modeonly fs fs' -> G fs -> G fs'.
+Proof. intros Hm HG X HX. eapply modeonly_physdir; eauto. Qed.
+
+Lemma restore_files_spec ar files : forall fs,
+  (forall pc, In pc files -> leafok (fst pc)) -> G fs ->
+  local T fs (restore_files ar fs files) /\ G (restore_files ar fs files).
 Proof.
-  induction files as [|[p c] files IH]; intros fs done Hf Hd HG; cbn [restore_files fold_left].
-  - split; [apply local_refl|]. split; [exact HG|]. split; [intros p Hp; apply Hd; exact Hp | intros pc []].
-  - assert (Hlp : leafok p) by (apply (Hf (p, c)); left; reflexivity).
+  induction files as [|[p c] files IH]; intros fs Hf HG; cbn [restore_files fold_left].
+  - split; [apply local_refl | exact HG].
+  - assert (Hnext : forall f1, local T fs f1 -> G f1 ->
+              local T fs (fold_left (fun f pc => if N.eqb (snd pc) bad_content then f
+                             else fst (restore_file f (fst pc) (snd pc) ar)) files f1) /\
+              G (fold_left (fun f pc => if N.eqb (snd pc) bad_content then f
+                             else fst (restore_file f (fst pc) (snd pc) ar)) files f1)).
+    { intros f1 Hl1 HG1. destruct (IH f1) as [Hl2 HG2]; [intros pc Hpc; apply Hf; right; exact Hpc | exact HG1|].
+      unfold restore_files in Hl2, HG2. split; [eapply local_trans; eauto | exact HG2]. }
+    cbn [fst snd]. destruct (N.eqb c bad_content); [apply Hnext; [apply local_refl | exact HG]|].
+    assert (Hlp : leafok p) by (apply (Hf (p, c)); left; reflexivity).
     destruct Hlp as [d [n [Ep [Hdu Hx]]]].
     assert (HD : physdir fs (T ++ d)) by (apply HG; exact Hdu).
-    destruct (restore_file_spec fs (T ++ d) n c ar HD) as [fs1 [s [E [Hl Hn]]]].
-    rewrite <- app_assoc in E, Hl, Hn. rewrite <- Ep in E, Hl, Hn. cbn [fst snd]. rewrite E. cbn [fst].
-    assert (HG1 : G fs1) by (eapply (G_leafstep fs fs1 d n); eauto; rewrite <- Ep; exact Hl).
-    assert (Hlp : leafok p) by (exists d, n; auto).
-    destruct (IH fs1 (p :: done)) as [Hl2 [HG2 [Hd2 Hf2]]].
-    + intros pc Hpc. apply Hf. right; exact Hpc.
-    + intros q [<- | Hq]; [split; [exact Hlp | exact Hn]|].
-      destruct (Hd q Hq) as [Hlq Hnq]. split; [exact Hlq|].
-      destruct (leaf_compat q p Hlq Hlp) as [-> | Hpre]; [exact Hn|].
-      intros tg. rewrite (Hl q Hpre). apply Hnq.
-    + exact HG1.
-    + fold (restore_files ar fs1 files). split.
-      * eapply local_trans; [|exact Hl2]. rewrite Ep in Hl. eapply T_prefix_local; exact Hl.
-      * split; [exact HG2|]. split.
-        -- intros q Hq. apply Hd2. right; exact Hq.
-        -- intros pc [<- | Hpc]; [apply Hd2; left; reflexivity | apply Hf2; exact Hpc].
+    destruct (restore_file_spec fs (T ++ d) n c ar HD) as [fs1 [s [E [Hl _]]]].
+    rewrite <- app_assoc in E, Hl. rewrite <- Ep in E. rewrite E. cbn [fst].
+    apply Hnext.
+    + eapply T_prefix_local; exact Hl.
+    + eapply (G_leafstep fs fs1 d n); eauto.
 Qed.
 
 (* ---- pass 2 ---- *)
 Variable evs : list ev.
-Variable FP : list path.
 Variable sel : selT.
 Variable o : opts.
 Variable delete2 : bool.
 Variable tracked : list path.
+Variable idx : list (N * path).
 
 Hypothesis W_visit : forall d nd loc, In (EvVisit d nd loc) evs ->
   In d used /\ (forall X, In X used -> prefixb (d ++ [node_name nd]) X = false) /\ loc = d ++ [node_name nd].
@@ -311,76 +323,27 @@ Hypothesis W_leave : forall d mo loc keep, In (EvLeave d mo loc keep) evs ->
   (forall X e, In X used -> prefixb (d ++ [e]) X = true -> mem_name e keep = true) /\
   (forall d' nd' loc' e, In (EvVisit d' nd' loc') evs -> prefixb (d ++ [e]) (d' ++ [node_name nd']) = true ->
                          mem_name e keep = true).
-Hypothesis W_nodup : forall d1 nd1 l1 d2 nd2 l2, In (EvVisit d1 nd1 l1) evs -> In (EvVisit d2 nd2 l2) evs ->
-  d1 ++ [node_name nd1] = d2 ++ [node_name nd2] -> nd1 = nd2.
-Hypothesis FP_files : forall p, In p FP -> exists d n c m loc, In (EvVisit d (NFile n c m) loc) evs /\ p = T ++ d ++ [n].
-Hypothesis tracked_FP : forall l, mem_path l tracked = true ->
-  exists d n c m, In (EvVisit d (NFile n c m) l) evs /\ In (T ++ d ++ [n]) FP.
-
-Definition Inv (fs : fsT) : Prop := G fs /\ forall p, In p FP -> notlink fs p.
-
-Lemma FP_leafok p : In p FP -> leafok p.
-Proof.
-  intros Hp. destruct (FP_files p Hp) as [d [n [c [m [loc [Hin ->]]]]]].
-  destruct (W_visit _ _ _ Hin) as [Hd [Hx _]]. exists d, n. auto.
-Qed.
-
-Lemma Inv_modeonly fs fs' : modeonly fs fs' -> Inv fs -> Inv fs'.
-Proof.
-  intros Hm [HG Hn]. split.
-  - intros X HX. eapply modeonly_physdir; eauto.
-  - intros p Hp. eapply modeonly_notlink; eauto.
-Qed.
-
-(* change at a leaf position that is not one of the restored files *)
-Lemma Inv_leafstep fs fs' d n : In d used -> (forall X, In X used -> prefixb (d ++ [n]) X = false) ->
-  ~ In (T ++ d ++ [n]) FP ->
-  local (T ++ d ++ [n]) fs fs' -> Inv fs -> Inv fs'.
-Proof.
-  intros Hd Hx Hnin Hl [HG Hn]. split; [eapply G_leafstep; eauto|].
-  intros p Hp. assert (Hlp : leafok p) by (apply FP_leafok; exact Hp).
-  assert (Hlq : leafok (T ++ d ++ [n])) by (exists d, n; auto).
-  destruct (leaf_compat p _ Hlp Hlq) as [E | Hpre].
-  - exfalso. apply Hnin. rewrite E. exact Hp.
-  - intros tg. rewrite (Hl p Hpre). apply Hn; exact Hp.
-Qed.
+Hypothesis idx_ok : forall ino v, idx_find ino idx = Some v -> exists d nd, In (EvVisit d nd v) evs.
 
 Lemma should_overwrite_cases fs p : should_overwrite o fs p = Some true \/ should_overwrite o fs p <> Some true.
 Proof. destruct (should_overwrite o fs p) as [[|]|]; [left; reflexivity | right; discriminate | right; discriminate]. Qed.
 
-Lemma restore_node_local fs D n e chm : physdir fs D -> (forall tg, e <> ELink tg) ->
+Lemma restore_node_local fs D n e chm : physdir fs D ->
   local (D ++ [n]) fs (restore_node fs (D ++ [n]) e chm).
-Proof.
-  intros H He. unfold restore_node. destruct (remove fs (D ++ [n])) as [fs1 s1] eqn:Er.
-  assert (Hl1 : local (D ++ [n]) fs fs1) by (eapply remove_local; eauto).
-  assert (H1 : physdir fs1 D) by (eapply physdir_local; [exact Hl1 | apply snoc_not_prefix | exact H]).
-  assert (Hrest : local (D ++ [n]) fs
-            match create fs1 (D ++ [n]) e with
-            | (fs2, Ok) => match chm with Some m => chmod fs2 (D ++ [n]) m | None => fs2 end
-            | (fs2, _) => fs2 end).
-  { destruct (create fs1 (D ++ [n]) e) as [fs2 s2] eqn:Ec.
-    assert (Hl2 : local (D ++ [n]) fs1 fs2) by (eapply create_local; eauto).
-    assert (Hl12 : local (D ++ [n]) fs fs2) by (eapply local_trans; eauto).
-    destruct s2; [|exact Hl12|exact Hl12]. destruct chm as [m|]; [|exact Hl12].
-    destruct (create_snoc _ _ _ _ _ _ H1 Ec) as [[_ [Hs _]] | [-> _]]; [contradiction|].
-    eapply local_trans; [exact Hl12|]. apply chmod_spec.
-    - eapply physdir_local; [apply local_set | apply snoc_not_prefix | exact H1].
-    - intros tg. rewrite look_set, path_eqb_refl. intros E. inversion E. eapply He; eauto. }
-  destruct s1; [exact Hrest | exact Hrest | exact Hl1].
-Qed.
-
-Lemma restore_node_link_local fs D n tg : physdir fs D ->
-  local (D ++ [n]) fs (restore_node fs (D ++ [n]) (ELink tg) None).
 Proof.
   intros H. unfold restore_node. destruct (remove fs (D ++ [n])) as [fs1 s1] eqn:Er.
   assert (Hl1 : local (D ++ [n]) fs fs1) by (eapply remove_local; eauto).
   assert (H1 : physdir fs1 D) by (eapply physdir_local; [exact Hl1 | apply snoc_not_prefix | exact H]).
   assert (Hrest : local (D ++ [n]) fs
-            match create fs1 (D ++ [n]) (ELink tg) with
-            | (fs2, Ok) => fs2 | (fs2, _) => fs2 end).
-  { destruct (create fs1 (D ++ [n]) (ELink tg)) as [fs2 s2] eqn:Ec.
+            match create fs1 (D ++ [n]) e with
+            | (fs2, Ok) => match chm with Some m => restore_meta fs2 (D ++ [n]) m | None => fs2 end
+            | (fs2, _) => fs2 end).
+  { destruct (create fs1 (D ++ [n]) e) as [fs2 s2] eqn:Ec.
     assert (Hl2 : local (D ++ [n]) fs1 fs2) by (eapply create_local; eauto).
-    destruct s2; eapply local_trans; eauto. }
+    assert (Hl12 : local (D ++ [n]) fs fs2) by (eapply local_trans; eauto).
+    destruct s2; [|exact Hl12|exact Hl12]. destruct chm as [m|]; [|exact Hl12].
+    eapply local_trans; [exact Hl12|]. apply restore_meta_spec.
+    eapply physdir_local; [exact Hl2 | apply snoc_not_prefix | exact H1]. }
   destruct s1; [exact Hrest | exact Hrest | exact Hl1].
 Qed.
 
@@ -394,92 +357,111 @@ Proof.
     intros fs H. try rewrite app_assoc in H. eapply physdir_prefix; exact H.
 Qed.
 
-Lemma pass2_step fs e : In e evs -> Inv fs ->
-  Inv (pass2_ev o sel delete2 T tracked fs e) /\ local T fs (pass2_ev o sel delete2 T tracked fs e).
+(* metadata restore at the path of a visited leaf *)
+Lemma meta_leaf fs d nd loc m : In (EvVisit d nd loc) evs -> G fs ->
+  G (restore_meta fs (T ++ d ++ [node_name nd]) m) /\ local T fs (restore_meta fs (T ++ d ++ [node_name nd]) m).
+Proof.
+  intros He HG. destruct (W_visit _ _ _ He) as [Hd _].
+  assert (HD : physdir fs (T ++ d)) by (apply HG; exact Hd).
+  destruct (restore_meta_spec fs (T ++ d) (node_name nd) m HD) as [Hl Hm]. rewrite <- app_assoc in Hl, Hm.
+  split; [eapply G_modeonly; eauto | eapply T_prefix_local; exact Hl].
+Qed.
+
+Lemma pass2_step fs e : In e evs -> G fs ->
+  G (pass2_ev o sel delete2 T tracked idx fs e) /\ local T fs (pass2_ev o sel delete2 T tracked idx fs e).
 Proof.
   intros He HI. destruct e as [d | d nd loc | d mo loc keep]; cbn [pass2_ev].
   - split; [exact HI | apply local_refl].
   - destruct (W_visit _ _ _ He) as [Hd [Hx Hloc]].
-    assert (HD : physdir fs (T ++ d)) by (apply (proj1 HI); exact Hd).
-    assert (Hnotfile : forall n, node_name nd = n -> (forall c m, nd <> NFile n c m) -> ~ In (T ++ d ++ [n]) FP).
-    { intros n En Hnf Hin. destruct (FP_files _ Hin) as [d2 [n2 [c2 [m2 [loc2 [Hin2 E2]]]]]].
-      apply app_inv_head in E2.
-      assert (nd = NFile n2 c2 m2).
-      { eapply W_nodup; [exact He | exact Hin2 |]. rewrite En. exact E2. }
-      subst nd. cbn in En. subst n2. eapply Hnf; reflexivity. }
-    destruct nd as [n c m | n m sub | n tg | n m | n]; cbn [node_name] in *.
-    + (* tracked regular file: chmod *)
-      destruct (mem_path loc tracked) eqn:Etr; [|split; [exact HI | apply local_refl]].
-      destruct (tracked_FP loc Etr) as [d0 [n0 [c0 [m0 [Hin0 HFP]]]]].
-      destruct (W_visit _ _ _ Hin0) as [_ [_ Hloc0]]. cbn [node_name] in Hloc0.
-      assert (Epath : T ++ d0 ++ [n0] = T ++ d ++ [n]) by (f_equal; congruence).
-      rewrite Epath in HFP.
-      assert (Hnl : notlink fs ((T ++ d) ++ [n])) by (rewrite <- app_assoc; apply (proj2 HI); exact HFP).
-      destruct (chmod_spec fs (T ++ d) n m HD Hnl) as [Hl Hm]. rewrite <- app_assoc in Hl, Hm.
-      split; [eapply Inv_modeonly; eauto | eapply T_prefix_local; exact Hl].
+    assert (HD : physdir fs (T ++ d)) by (apply HI; exact Hd).
+    assert (Hleaf : forall fs', local ((T ++ d) ++ [node_name nd]) fs fs' -> G fs' /\ local T fs fs').
+    { intros fs' Hl. rewrite <- app_assoc in Hl. split; [eapply (G_leafstep fs fs' d (node_name nd)); eauto | eapply T_prefix_local; exact Hl]. }
+    destruct nd as [n c m | n m sub | n tg | n m | n | n c m ino]; cbn [node_name] in *.
+    + destruct (mem_path loc tracked); [|split; [exact HI | apply local_refl]].
+      apply (meta_leaf fs d (NFile n c m) loc m He HI).
     + split; [exact HI | apply local_refl].
-    + destruct (should_overwrite_cases fs (T ++ d ++ [n])) as [E | E].
-      * rewrite E. pose proof (restore_node_link_local fs (T ++ d) n tg HD) as Hl. rewrite <- app_assoc in Hl.
-        split; [|eapply T_prefix_local; exact Hl].
-        eapply (Inv_leafstep fs _ d n); eauto. apply (Hnotfile n eq_refl). intros c m; discriminate.
-      * destruct (should_overwrite o fs (T ++ d ++ [n])) as [[|]|]; try congruence; (split; [exact HI | apply local_refl]).
-    + destruct (should_overwrite_cases fs (T ++ d ++ [n])) as [E | E].
-      * rewrite E.
-        assert (Hl : local ((T ++ d) ++ [n]) fs (restore_node fs ((T ++ d) ++ [n]) (ESpec mode_file_default) (Some m))).
-        { apply restore_node_local; [exact HD | intros tg; discriminate]. }
-        rewrite <- app_assoc in Hl.
-        split; [|eapply T_prefix_local; exact Hl].
-        eapply (Inv_leafstep fs _ d n); eauto. apply (Hnotfile n eq_refl). intros c m'; discriminate.
-      * destruct (should_overwrite o fs (T ++ d ++ [n])) as [[|]|]; try congruence; (split; [exact HI | apply local_refl]).
+    + destruct (should_overwrite o fs (T ++ d ++ [n])) as [[|]|]; try (split; [exact HI | apply local_refl]).
+      rewrite app_assoc. apply Hleaf. apply restore_node_local; exact HD.
+    + destruct (should_overwrite o fs (T ++ d ++ [n])) as [[|]|]; try (split; [exact HI | apply local_refl]).
+      rewrite app_assoc. apply Hleaf. apply restore_node_local; exact HD.
     + split; [exact HI | apply local_refl].
+    + assert (Hmeta : G (if mem_path loc tracked then restore_meta fs (T ++ d ++ [n]) m else fs) /\
+                      local T fs (if mem_path loc tracked then restore_meta fs (T ++ d ++ [n]) m else fs)).
+      { destruct (mem_path loc tracked); [|split; [exact HI | apply local_refl]].
+        apply (meta_leaf fs d (NHard n c m ino) loc m He HI). }
+      destruct (idx_find ino idx) as [v|] eqn:Ei; [|exact Hmeta].
+      destruct (path_eqb v loc); [exact Hmeta|].
+      destruct (should_overwrite o fs (T ++ d ++ [n])) as [[|]|]; try (split; [exact HI | apply local_refl]).
+      (* restoreHardlinkAt *)
+      destruct (idx_ok _ _ Ei) as [d0 [nd0 He0]].
+      destruct (W_visit _ _ _ He0) as [Hd0 [_ Hv]].
+      unfold restore_hardlink. rewrite (app_assoc T d [n]).
+      destruct (remove fs ((T ++ d) ++ [n])) as [fs1 s1] eqn:Er.
+      assert (Hl1 : local ((T ++ d) ++ [n]) fs fs1) by (eapply remove_local; eauto).
+      assert (H1 : physdir fs1 (T ++ d)) by (eapply physdir_local; [exact Hl1 | apply snoc_not_prefix | exact HD]).
+      assert (Hrest : G match link fs1 (T ++ v) ((T ++ d) ++ [n]) with
+                        | (fs2, Ok) => restore_meta (restore_meta fs2 ((T ++ d) ++ [n]) m) (T ++ v) m
+                        | (fs2, _) => fs2 end /\
+                      local T fs match link fs1 (T ++ v) ((T ++ d) ++ [n]) with
+                        | (fs2, Ok) => restore_meta (restore_meta fs2 ((T ++ d) ++ [n]) m) (T ++ v) m
+                        | (fs2, _) => fs2 end).
+      { destruct (link fs1 (T ++ v) ((T ++ d) ++ [n])) as [fs2 s2] eqn:El.
+        assert (Hl2 : local ((T ++ d) ++ [n]) fs1 fs2) by (eapply link_local; eauto).
+        assert (H2 : physdir fs2 (T ++ d)) by (eapply physdir_local; [exact Hl2 | apply snoc_not_prefix | exact H1]).
+        destruct (restore_meta_spec fs2 (T ++ d) n m H2) as [Hl3 _].
+        assert (Hl13 : local ((T ++ d) ++ [n]) fs (restore_meta fs2 ((T ++ d) ++ [n]) m)).
+        { eapply local_trans; [exact Hl1|]. eapply local_trans; [exact Hl2 | exact Hl3]. }
+        assert (Hl12 : local ((T ++ d) ++ [n]) fs fs2) by (eapply local_trans; [exact Hl1 | exact Hl2]).
+        destruct s2; [|apply Hleaf; exact Hl12 | apply Hleaf; exact Hl12].
+        destruct (Hleaf _ Hl13) as [HG3 HT3].
+        set (fs3 := restore_meta fs2 ((T ++ d) ++ [n]) m) in *.
+        assert (HD0 : physdir fs3 (T ++ d0)) by (apply HG3; exact Hd0).
+        destruct (restore_meta_spec fs3 (T ++ d0) (node_name nd0) m HD0) as [Hl4 Hm4].
+        rewrite Hv. rewrite (app_assoc T d0). split; [eapply G_modeonly; eauto|].
+        eapply local_trans; [exact HT3|]. eapply local_weaken; [|exact Hl4].
+        rewrite <- app_assoc. apply prefixb_app. }
+      destruct s1; [exact Hrest | exact Hrest | apply Hleaf; exact Hl1].
   - destruct (W_leave _ _ _ _ He) as [Hd [Hku Hkl]].
     destruct (T_snoc_split d) as [D0 [x [ED HD0]]].
-    (* the deletions *)
     assert (Hdel : exists fs1 s1, (if delete2 then remove_unexpected sel fs (T ++ d) loc keep else (fs, Ok)) = (fs1, s1) /\
-                                  Inv fs1 /\ local T fs fs1).
+                                  G fs1 /\ local T fs fs1).
     { destruct delete2; [|exists fs, Ok; split; [reflexivity|]; split; [exact HI | apply local_refl]].
       unfold remove_unexpected.
-      assert (HD : physdir fs (T ++ d)) by (apply (proj1 HI); exact Hd).
+      assert (HD : physdir fs (T ++ d)) by (apply HI; exact Hd).
       rewrite ED. rewrite (lstat_snoc _ _ _ (HD0 fs HD)). rewrite <- ED.
       destruct (physdir_last fs D0 x) as [m0 Hm0]; [rewrite <- ED; exact HD|]. rewrite <- ED in Hm0. rewrite Hm0.
       cbn [is_dir]. eexists _, Ok. split; [reflexivity|].
       generalize (children fs (T ++ d)). intros names.
-      assert (Hgen : forall f, Inv f -> local T fs f ->
-         Inv (fold_left (fun f n => if mem_name n keep then f
+      assert (Hgen : forall f, G f -> local T fs f ->
+         G (fold_left (fun f n => if mem_name n keep then f
                                     else if fst (sel (loc ++ [n]) false) then fst (remove_all f ((T ++ d) ++ [n])) else f) names f) /\
          local T fs (fold_left (fun f n => if mem_name n keep then f
                                     else if fst (sel (loc ++ [n]) false) then fst (remove_all f ((T ++ d) ++ [n])) else f) names f)).
       { induction names as [|e names IHn]; intros f Hf Hlf; cbn [fold_left]; [split; assumption|].
         destruct (mem_name e keep) eqn:Ek; [apply IHn; assumption|].
         destruct (fst (sel (loc ++ [e]) false)); [|apply IHn; assumption].
-        assert (HDf : physdir f (T ++ d)) by (apply (proj1 Hf); exact Hd).
+        assert (HDf : physdir f (T ++ d)) by (apply Hf; exact Hd).
         rewrite (remove_all_snoc _ _ _ HDf). cbn [fst].
         assert (Hl : local (T ++ d ++ [e]) f (rmall f ((T ++ d) ++ [e]))) by (rewrite app_assoc; apply local_rmall).
         apply IHn.
-        - eapply (Inv_leafstep f _ d e); eauto.
-          + intros X HX. destruct (prefixb (d ++ [e]) X) eqn:Ep; [|reflexivity].
-            rewrite (Hku X e HX Ep) in Ek. discriminate.
-          + intros Hin. destruct (FP_files _ Hin) as [d2 [n2 [c2 [m2 [loc2 [Hin2 E2]]]]]].
-            apply app_inv_head in E2.
-            assert (Ep : prefixb (d ++ [e]) (d2 ++ [node_name (NFile n2 c2 m2)]) = true).
-            { cbn [node_name]. rewrite <- E2. apply prefixb_refl. }
-            rewrite (Hkl _ _ _ e Hin2 Ep) in Ek. discriminate.
+        - eapply (G_leafstep f _ d e); eauto.
+          intros X HX. destruct (prefixb (d ++ [e]) X) eqn:Ep; [|reflexivity].
+          rewrite (Hku X e HX Ep) in Ek. discriminate.
         - eapply local_trans; [exact Hlf|]. eapply T_prefix_local; exact Hl. }
       apply Hgen; [exact HI | apply local_refl]. }
     destruct Hdel as [fs1 [s1 [E [HI1 Hl1]]]]. rewrite E.
-    assert (Hch : forall m, Inv (chmod fs1 (T ++ d) m) /\ local T fs (chmod fs1 (T ++ d) m)).
-    { intros m. assert (HD : physdir fs1 (T ++ d)) by (apply (proj1 HI1); exact Hd).
+    assert (Hch : forall m, G (restore_meta fs1 (T ++ d) m) /\ local T fs (restore_meta fs1 (T ++ d) m)).
+    { intros m. assert (HD : physdir fs1 (T ++ d)) by (apply HI1; exact Hd).
       rewrite ED. rewrite ED in HD.
-      destruct (chmod_spec fs1 D0 x m (HD0 fs1 ltac:(rewrite ED; exact HD))) as [Hl Hm].
-      - intros tg Ht. destruct (physdir_last _ _ _ HD) as [m' Hm']. congruence.
-      - split; [eapply Inv_modeonly; eauto|]. eapply local_trans; [exact Hl1|].
-        eapply local_weaken; [|exact Hl]. rewrite <- ED. apply prefixb_app. }
+      destruct (restore_meta_spec fs1 D0 x m (HD0 fs1 ltac:(rewrite ED; exact HD))) as [Hl Hm].
+      split; [eapply G_modeonly; eauto|]. eapply local_trans; [exact Hl1|].
+      eapply local_weaken; [|exact Hl]. rewrite <- ED. apply prefixb_app. }
     destruct s1; [destruct mo as [m|]; [apply Hch | split; assumption] | split; assumption | split; assumption].
 Qed.
 
-Lemma pass2_fold l : forall fs, (forall e, In e l -> In e evs) -> Inv fs ->
-  Inv (fold_left (pass2_ev o sel delete2 T tracked) l fs) /\
-  local T fs (fold_left (pass2_ev o sel delete2 T tracked) l fs).
+Lemma pass2_fold l : forall fs, (forall e, In e l -> In e evs) -> G fs ->
+  G (fold_left (pass2_ev o sel delete2 T tracked idx) l fs) /\
+  local T fs (fold_left (pass2_ev o sel delete2 T tracked idx) l fs).
 Proof.
   induction l as [|e l IH]; intros fs Hin HI; cbn [fold_left]; [split; [exact HI | apply local_refl]|].
   destruct (pass2_step fs e (Hin e (or_introl eq_refl)) HI) as [HI1 Hl1].
